@@ -11,7 +11,7 @@ RULE = ('encode_eci over structured inputs x all 64 mode subsets (empty set and 
         '(empty, singletons, pairs, subsets, default, all) x macros x FNC1 x ECI numbers of the three designator forms; degenerate '
         'envelopes (bare macro header, header without trailer, trailer only); encode_str; debug and release builds, panics caught; '
         'non-trivial = non-empty list and non-empty mode set; plus three deterministic families: capacity boundaries complete for the small symbols (every alphabet x every length delta x every tail kind, with/without FNC1 start, with the single symbol of that capacity alone in the list), codec constants (Base256 runs of 248..252 / 499..501 / 1554..1555 bytes, every alphabet border byte in every context), every non-empty mode subset x {FNC1, ECI, macro, none} prefix; and the regression corpus of minimised former witnesses')
-THEOREMS = 'C11_classification, C11_empty_list, C11_only_two_errors, C11_macro_total, C11_eci_total, C11_padding_total, C11_mode_encoders, C11_panic_source, C11_ascii_plan_total, C11_api_panic_source, C11_planner_total, C11_encodation_plan_total, C11_panic_is_main_loop, C11_ascii_only_total, C11_ab_total, C11_abx_total, C11_abxe_total'
+THEOREMS = 'C11_classification, C11_empty_list, C11_only_two_errors, C11_macro_total, C11_eci_total, C11_padding_total, C11_mode_encoders, C11_panic_source, C11_ascii_plan_total, C11_api_panic_source, C11_planner_total, C11_encodation_plan_total, C11_panic_is_main_loop, C11_ascii_only_total, C11_ab_total, C11_abx_total, C11_abxe_total, C11_total, C11_value_or_classified_error, C11_builder_total'
 ASSUMPTIONS = ['the sort order of remove_hopeless_cases is taken from the implementation (hook trace)',
                'hang detection: per-run wall-clock limit of the harness process, not an instruction budget']
 
